@@ -1,0 +1,22 @@
+//go:build verif
+
+// Contracts for the deductive verifier in /verif (comment-only file; compiled out
+// unless the build tag `verif` is set, and even then contains no executable code).
+package models
+
+// ---- a query that passes schema validation has vectors of the index dimension everywhere
+// (property C18: a vector of the wrong length never reaches a distance computation) ----
+// vecOK(q, s): every vector sub-query of q (also inside filters, _and, _or) addresses an index of
+// the matching type and carries a vector of exactly that index's dimension.
+//@ spec vecOK(q Query, s IndexSchema) bool = ite(q.Property == "_and", forall(i, 0, len(q.And), vecOK(q.And[i], s)), ite(q.Property == "_or", forall(i, 0, len(q.Or), vecOK(q.Or[i], s)), ite(q.Property == "_id", true, contains(s, q.Property) && (s[q.Property].Type == "vectorFlat" ==> q.VectorFlat != nil && len(q.VectorFlat.Vector) == int(s[q.Property].VectorFlat.VectorSize) && (q.VectorFlat.Filter != nil ==> vecOK(*q.VectorFlat.Filter, s))) && (s[q.Property].Type == "vectorVamana" ==> q.VectorVamana != nil && len(q.VectorVamana.Vector) == int(s[q.Property].VectorVamana.VectorSize) && (q.VectorVamana.Filter != nil ==> vecOK(*q.VectorVamana.Filter, s))) && (s[q.Property].Type == "text" ==> q.Text != nil && (q.Text.Filter != nil ==> vecOK(*q.Text.Filter, s))))))
+
+//@ func (Query).ValidateSchema
+//@   property C18
+//@   pure
+//@   safety -overflow
+//@   requires forallv(k string, contains(schema, k) ==> (schema[k].Type == "vectorFlat" ==> schema[k].VectorFlat != nil) && (schema[k].Type == "vectorVamana" ==> schema[k].VectorVamana != nil))
+//@   ensures result == nil ==> vecOK(q, schema)
+//@   loop 1 invariant rangeindex >= -1 && rangeindex < len(q.And)
+//@   loop 1 invariant forall(j, 0, rangeindex+1, vecOK(q.And[j], schema))
+//@   loop 2 invariant rangeindex >= -1 && rangeindex < len(q.Or)
+//@   loop 2 invariant forall(j, 0, rangeindex+1, vecOK(q.Or[j], schema))
